@@ -21,6 +21,7 @@ BasesT  == {<<>>}
 UOpsT   == {}
 NoExtra == [base |-> FALSE]
 BaseExtra == [base |-> TRUE]
+LockExtra == [base |-> FALSE, fam |-> "lockdisc"]
 
 \* ---------------- pool A: competition / backtracking / abandoned captures
 PatsA == {"/u/{id}", "/u/{id:\\d+}", "/u/{id:digit}", "/u/5", "/u/{id}/x", "/u/{id}/{p:\\d+}",
